@@ -244,4 +244,109 @@ theorem cycleKBA_eq {α} (C : Codec α) (sem : Op → List α → α) (ops : Lis
     rw [ih _ (h2.trans hn), h1]
     rfl
 
+/-! ### lanes: what one lane of the byte-level run is
+
+`LaneView` collects what the proofs need to know about an arity: `ln p` reads lane `p` of a memory value (`β` = the one-lane
+value domain: `Bool`, `V2`, `V3`), `ofCode` is the value a pattern entry denotes, `code` the multi-valued code `bp_to_mv` shows
+for a captured value, `keep` the weight with which the OLD plane 2 of the `s[1]` row shows through (4 for m = 2, 4, where
+`c_to_s` does not write that plane; 0 for m = 8). -/
+
+structure LaneView {α β : Type} (C : Codec α) (nb : Nat) (ln : Nat → α → β) (ofCode : Nat → β) (code : β → Nat) (keep : Nat) :
+    Prop where
+  dec_row : ∀ (row : List Nat) p, cdiv row.length 8 = nb → ln p (C.dec (mvToBpRow nb row)) = ofCode (if p < row.length then row.getD p 0 else 0)
+  dec_nil : ∀ p, ln p (C.dec []) = ofCode 0
+  enc_code : ∀ v r p, p < 8 * nb →
+    (bpToMvRow nb (C.enc v r)).getD p 0 = code (ln p v) + keep * b2n ((plane nb r 2).getLsbD p)
+  enc_len : ∀ v r, (C.enc v r).length = 3
+
+theorem upd_map {α β} (f : α → β) (env : Nat → α) (k : Nat) (v : α) :
+    (fun x => f (upd env k v x)) = upd (fun x => f (env x)) k (f v) := by
+  funext x; unfold upd; split <;> rfl
+
+theorem getD_map' {α β} (f : α → β) (a : List α) (i : Nat) (d : α) : (a.map f).getD i (f d) = f (a.getD i d) := by
+  simp only [List.getD_eq_getElem?_getD, List.getElem?_map]
+  cases a[i]? <;> rfl
+
+/-- `s_to_c` commutes with every map of the value domain (reading a lane, in particular) -/
+theorem sToC_map {α β} (f : α → β) (T : Tabs) (d : α) (a : List α) (env : Nat → α) :
+    (fun x => f (sToC T d a env x)) = sToC T (f d) (a.map f) (fun x => f (env x)) := by
+  unfold sToC
+  generalize T.pippi = l
+  induction l generalizing env with
+  | nil => rfl
+  | cons px r ih =>
+    simp only [List.foldl_cons]
+    rw [ih, upd_map, getD_map']
+
+theorem getD_mapIdx_lt {γ δ} (f : Nat → γ → δ) (l : List γ) (i : Nat) (d : δ) (dg : γ) (h : i < l.length) :
+    (l.mapIdx f).getD i d = f i (l.getD i dg) := by
+  simp [List.getD_eq_getElem?_getD, List.getElem?_mapIdx, List.getElem?_eq_getElem h]
+
+section lanes
+variable {α β : Type} (C : Codec α) (nb : Nat) (ln : Nat → α → β) (ofCode : Nat → β) (code : β → Nat) (keep : Nat)
+  (semW : Nat → List α → α) (semL : Nat → List β → β)
+
+/-- **(T-A) one lane of the byte-level run, any state, any lane (padding lanes included)**: after `s_to_c; c_prop; c_to_s` on
+    the byte-level `s` (any `s[0]`, any `s[1]` left by earlier runs, any memory contents), pattern `p` of `bp_to_mv` of a
+    captured row is the code of the ONE-LANE simulation of lane `p` of `s[0]` (lanes of the memory for the constant slot), plus
+    what `c_to_s` does not overwrite.  Hypothesis `hl`: the bit-parallel op semantics is lane-wise (C01 `sim2_lanes`, C02
+    `sim4_lanes` / `sim8_lanes`). -/
+theorem captureB_lane (V : LaneView C nb ln ofCode code keep)
+    (hl : ∀ p, p < 8 * nb → ∀ (ops : List Op) (env : Nat → α) (l : Nat),
+      ln p (exec semW ops env l) = exec semL ops (fun x => ln p (env x)) l)
+    (ops : List Op) (net : Net) (strip : Bool) (env0 : Nat → α) (s0 s1 : List SRow) (q p : Nat)
+    (hp : p < 8 * nb) (hq : q < s1.length) (hcap : isPoppo net q = true) :
+    (bpToMvRow nb ((captureB C (fun op => semW op.code) ops (tabsOf net strip) env0 s0 s1).getD q [])).getD p 0 =
+      code (exec semL ops (sToC (tabsOf net strip) (ofCode 0) (s0.map fun r => ln p (C.dec r)) (fun x => ln p (env0 x)))
+        (capSig net strip q)) + keep * b2n ((plane nb (s1.getD q []) 2).getLsbD p) := by
+  unfold captureB
+  rw [cToSB_eq, getD_mapIdx_lt _ _ _ _ [] hq]
+  simp only [hcap, if_true]
+  rw [V.enc_code _ _ _ hp, ← exec_eq_execG, hl p hp, sToCB_eq, sToC_map (ln p), V.dec_nil, List.map_map]
+  rfl
+
+/-- an uncaptured position keeps its row -/
+theorem captureB_skip (ops : List Op) (net : Net) (strip : Bool) (env0 : Nat → α) (s0 s1 : List SRow) (q : Nat)
+    (hcap : isPoppo net q = false) :
+    (captureB C (fun op => semW op.code) ops (tabsOf net strip) env0 s0 s1).getD q [] = s1.getD q [] := by
+  unfold captureB
+  rw [cToSB_eq, List.getD_eq_getElem?_getD, List.getElem?_mapIdx]
+  cases h : s1[q]? <;> simp [hcap, List.getD_eq_getElem?_getD, h]
+
+theorem captureB_len3 (V : LaneView C nb ln ofCode code keep) (ops : List Op) (net : Net) (strip : Bool) (env0 : Nat → α)
+    (s0 s1 : List SRow) (h3 : ∀ r ∈ s1, r.length = 3) :
+    ∀ r ∈ captureB C (fun op => semW op.code) ops (tabsOf net strip) env0 s0 s1, r.length = 3 := by
+  unfold captureB
+  rw [cToSB_eq]
+  intro r hr
+  rw [List.mem_mapIdx] at hr
+  obtain ⟨i, hi, rfl⟩ := hr
+  split
+  · exact V.enc_len _ _
+  · exact h3 _ (List.getElem_mem hi)
+
+end lanes
+
+/-! ### fresh rows -/
+
+theorem bits255 : ∀ i, i < 8 → (255 / 2 ^ i % 2 == 1) = true := by decide
+
+theorem getLsbD_ofBytes_replicate (nb x p : Nat) :
+    (ofBytes nb (List.replicate nb x)).getLsbD p = (decide (p < 8 * nb) && (x / 2 ^ (p % 8) % 2 == 1)) := by
+  rw [getLsbD_ofBytes_byte]
+  by_cases hp : p < 8 * nb
+  · have : p / 8 < nb := by omega
+    simp [hp, List.getD_eq_getElem?_getD, List.getElem?_replicate, this]
+  · simp [hp]
+
+/-- a fresh row shows UNASSIGNED (code 2) in every lane -/
+theorem bpToMvRow_fresh (nb p : Nat) (hp : p < 8 * nb) : (bpToMvRow nb (freshRow nb)).getD p 0 = 2 := by
+  unfold freshRow
+  rw [bpToMvRow_lanes _ _ _ _ _ hp]
+  simp only [getLsbD_ofBytes_replicate, hp, decide_true, Bool.true_and, bits255 (p % 8) (by omega)]
+  simp [b2n]
+
+theorem plane2_fresh (nb p : Nat) : (plane nb (freshRow nb) 2).getLsbD p = false := by
+  simp [plane, freshRow, getLsbD_ofBytes_replicate]
+
 end KV.DP
